@@ -92,6 +92,8 @@ func (d *Driver) sendRPC(
 
 	timer := time.NewTimer(d.Channel.GetTimeout(op.Timeout))
 
+	util.Yield("nc.rpc.select")
+
 	select {
 	case err = <-d.errs:
 		return nil, err
